@@ -5,6 +5,12 @@ package c10
 
 import (
 	"bytes"
+	"crypto"
+	"crypto/ecdsa"
+	"crypto/elliptic"
+	"crypto/rand"
+	"crypto/rsa"
+	stdx509 "crypto/x509"
 	"crypto/x509/pkix"
 	"encoding/asn1"
 	"fmt"
@@ -41,7 +47,7 @@ var R = hx.NewRecorder("C10", "cases = small PKIs (<=3 roots, <=5 intermediate c
 var cv = rsm2.Std
 
 func TestMain(m *testing.M) {
-	R.Require("cross_signed", "loop", "expired_intermediate", "pathlen_violation", "forged_sig", "nonCA_intermediate", "name_constraint_fail", "name_constraint_fail_mixed_forms", "critical_san_uri_only", "forged_twin_after_genuine", "intermediate_critical_ext", "uninterpreted_san:critical=true", "wildcard", "ip_san", "accept", "reject", "self_issued", "leaf_in_roots", "eku_reject", "critical_ext", "sigalg_sm2_with_sha", "noncritical_unknown_before_critical_known", "leaf_name_spells_ip", "dnsname_spells_ip", "cn_spells_ip")
+	R.Require("cross_signed", "loop", "expired_intermediate", "pathlen_violation", "forged_sig", "nonCA_intermediate", "name_constraint_fail", "name_constraint_fail_mixed_forms", "critical_san_uri_only", "forged_twin_after_genuine", "intermediate_critical_ext", "uninterpreted_san:critical=true", "wildcard", "ip_san", "accept", "reject", "self_issued", "leaf_in_roots", "eku_reject", "critical_ext", "sigalg_sm2_with_sha", "leaf_name_ends_like_a_permitted_subtree", "std_issued_chain", "std_issued:genuine", "std_issued:forged", "noncritical_unknown_before_critical_known", "leaf_name_spells_ip", "dnsname_spells_ip", "cn_spells_ip")
 	hx.Main(m, R)
 }
 
@@ -422,7 +428,11 @@ func drawPKI(t *rapid.T) *pki {
 		leaf.forged, leaf.signer = true, 99
 	}
 	leaf.ku = rapid.SampledFrom([]gx.KeyUsage{0, gx.KeyUsageDigitalSignature, gx.KeyUsageKeyEncipherment}).Draw(t, "leafku")
-	leaf.dns = rapid.SampledFrom([][]string{{"www.example.com"}, {"www.example.com"}, {"*.example.com"}, {"*.example.com"}, {"www.example.com", "alt.other.org"}, {"WWW.Example.COM"}, {"a.*.example.com"}, {"*.com"}, nil, {"example.com"}, {"10.0.0.2"}, {"www.example.com", "10.0.0.2"}}).Draw(t, "dns")
+	leaf.dns = rapid.SampledFrom([][]string{{"www.example.com"}, {"www.example.com"}, {"*.example.com"}, {"*.example.com"}, {"www.example.com", "alt.other.org"}, {"WWW.Example.COM"}, {"a.*.example.com"}, {"*.com"}, nil, {"example.com"}, {"10.0.0.2"}, {"www.example.com", "10.0.0.2"}, {"wwwexample.com"}, {"wwwexample.com"}}).Draw(t, "dns")
+	if len(leaf.dns) == 1 && leaf.dns[0] == "wwwexample.com" {
+		// a name that ENDS in a permitted subtree's string without being inside the subtree (no label boundary)
+		R.Class("leaf_name_ends_like_a_permitted_subtree")
+	}
 	if gen.OneIn(t, "ipsan", 3) {
 		leaf.ips = []net.IP{net.IPv4(10, 0, 0, 1).To4(), net.ParseIP("2001:db8::7")}
 	}
@@ -1149,4 +1159,94 @@ func TestC10_Hostname(t *testing.T) {
 			R.Case(true, hx.HashKey("host", pattern, h), "hostname_diff")
 		}
 	})
+}
+
+// Chains issued by ANOTHER toolchain (the standard library) under every signature algorithm this package lists for RSA
+// and ECDSA issuers: PKCS#1 v1.5 and RSASSA-PSS with SHA-256/384/512, ECDSA with SHA-256/384/512 on P-256/P-384/P-521.
+// Differential oracle: the standard library's own verifier; a genuine chain must verify here too, and the same chain
+// with one bit of the leaf's signature changed must not (nor must a chain under another root).
+func TestC10_StdIssuedChains(t *testing.T) {
+	rk, err := rsa.GenerateKey(rand.Reader, 2048)
+	if err != nil {
+		t.Fatal(err)
+	}
+	rk2, err := rsa.GenerateKey(rand.Reader, 2048)
+	if err != nil {
+		t.Fatal(err)
+	}
+	type issuer struct {
+		name string
+		key  crypto.Signer
+		algs []stdx509.SignatureAlgorithm
+	}
+	ek := func(c elliptic.Curve) crypto.Signer {
+		k, err := ecdsa.GenerateKey(c, rand.Reader)
+		if err != nil {
+			t.Fatal(err)
+		}
+		return k
+	}
+	issuers := []issuer{
+		{"rsa", rk, []stdx509.SignatureAlgorithm{stdx509.SHA256WithRSA, stdx509.SHA384WithRSA, stdx509.SHA512WithRSA, stdx509.SHA256WithRSAPSS, stdx509.SHA384WithRSAPSS, stdx509.SHA512WithRSAPSS}},
+		{"p256", ek(elliptic.P256()), []stdx509.SignatureAlgorithm{stdx509.ECDSAWithSHA256, stdx509.ECDSAWithSHA384, stdx509.ECDSAWithSHA512}},
+		{"p384", ek(elliptic.P384()), []stdx509.SignatureAlgorithm{stdx509.ECDSAWithSHA256, stdx509.ECDSAWithSHA384, stdx509.ECDSAWithSHA512}},
+		{"p521", ek(elliptic.P521()), []stdx509.SignatureAlgorithm{stdx509.ECDSAWithSHA256, stdx509.ECDSAWithSHA512}},
+	}
+	n := int64(100)
+	for _, is := range issuers {
+		for _, alg := range is.algs {
+			n++
+			rootTpl := &stdx509.Certificate{SerialNumber: big.NewInt(n), Subject: pkix.Name{CommonName: "std root " + is.name}, NotBefore: tNow.Add(-time.Hour), NotAfter: tNow.Add(time.Hour),
+				BasicConstraintsValid: true, IsCA: true, KeyUsage: stdx509.KeyUsageCertSign, SignatureAlgorithm: alg}
+			rootDER, err := stdx509.CreateCertificate(rand.Reader, rootTpl, rootTpl, is.key.Public(), is.key)
+			if err != nil {
+				t.Fatalf("harness: std root (%s, %v): %v", is.name, alg, err)
+			}
+			leafTpl := &stdx509.Certificate{SerialNumber: big.NewInt(n + 1000), Subject: pkix.Name{CommonName: "std leaf"}, NotBefore: tNow.Add(-time.Hour), NotAfter: tNow.Add(time.Hour),
+				DNSNames: []string{"www.example.com"}, KeyUsage: stdx509.KeyUsageDigitalSignature, SignatureAlgorithm: alg}
+			leafDER, err := stdx509.CreateCertificate(rand.Reader, leafTpl, rootTpl, &rk2.PublicKey, is.key)
+			if err != nil {
+				t.Fatalf("harness: std leaf (%s, %v): %v", is.name, alg, err)
+			}
+			forged := append([]byte{}, leafDER...)
+			forged[len(forged)-3] ^= 0x04
+			// reference
+			sroot, _ := stdx509.ParseCertificate(rootDER)
+			spool := stdx509.NewCertPool()
+			spool.AddCert(sroot)
+			for _, c := range []struct {
+				what string
+				der  []byte
+			}{{"genuine", leafDER}, {"forged", forged}} {
+				refOK := false
+				if sl, err := stdx509.ParseCertificate(c.der); err == nil {
+					_, err = sl.Verify(stdx509.VerifyOptions{Roots: spool, CurrentTime: tNow, DNSName: "www.example.com", KeyUsages: []stdx509.ExtKeyUsage{stdx509.ExtKeyUsageAny}})
+					refOK = err == nil
+				}
+				if refOK != (c.what == "genuine") {
+					t.Fatalf("harness: the reference verifier says %v for the %s chain (%s, %v)", refOK, c.what, is.name, alg)
+				}
+				root, err := gx.ParseCertificate(rootDER)
+				if err != nil {
+					t.Fatalf("ParseCertificate refused a root issued by the standard library (%s, %v): %v", is.name, alg, err)
+				}
+				pool := gx.NewCertPool()
+				pool.AddCert(root)
+				var verr error
+				leaf, perr := gx.ParseCertificate(c.der)
+				if perr == nil {
+					if pn := hx.Try(func() {
+						_, verr = leaf.Verify(gx.VerifyOptions{Roots: pool, CurrentTime: tNow, DNSName: "www.example.com", KeyUsages: []gx.ExtKeyUsage{gx.ExtKeyUsageAny}})
+					}); pn != nil {
+						t.Fatalf("Verify panicked (%s, %v, %s): %v", is.name, alg, c.what, pn.Val)
+					}
+				}
+				got := perr == nil && verr == nil
+				if got != refOK {
+					t.Fatalf("Verify of a %s chain issued under %v by a %s key: accepted=%v (parse err %v, verify err %v), the reference validator says %v", c.what, alg, is.name, got, perr, verr, refOK)
+				}
+				R.Case(true, hx.HashKey("stdchain", is.name, int(alg), c.what), "std_issued_chain", "std_issued:"+c.what)
+			}
+		}
+	}
 }
